@@ -82,6 +82,9 @@ struct E {
   Kind k; CI num; std::string name, spell; std::vector<EP> a; bool matlab = true;
   E(Kind kk) : k(kk) {}
 };
+// set when the denoted model contains an outer product (column * row): valid for the symbolic layer, but the numeric layer
+// of the library has no operator for it (recorded finding C02-outer-product-crash)
+inline bool& outer_seen() { static bool b = false; return b; }
 inline EP mk(Kind k, std::vector<EP> a = {}) { EP e = std::make_shared<E>(k); e->a = a; return e; }
 inline EP mkcall(const std::string& f, std::vector<EP> a) { EP e = mk(K_CALL, a); e->name = f; return e; }
 inline EP mksym(const std::string& s) { EP e = mk(K_SYM); e->name = s; return e; }
@@ -473,6 +476,7 @@ struct Denoter {
       else for (int i = 0; i < r; i++) for (int j = 0; j < c; j++) { CI s; bool first = true; for (int k = 0; k < a.c; k++) { CI p = ci_mul(a.cst[i * a.c + k], b.cst[k * b.c + j]); s = first ? p : ci_add(s, p); first = false; } d.push_back(s); }
       return cval(r, c, d);
     }
+    if (!a.scalar() && a.c == 1 && a.r > 1 && b.r == 1 && b.c > 1) outer_seen() = true;
     int x = nodeof(a), y = nodeof(b);
     return bin("mul", x, y, r, c);
   }
